@@ -42,6 +42,10 @@ pub fn init() -> Result<ClientConfig, std::io::Error> {
     let mut json = String::new();
     File::open(&path).unwrap_or_else(|_| panic!("Can't find the config (by path {}). Please ensure the file path is the 1st start command arg (named 'config.json') and put the file into the same folder", &path)).read_to_string(&mut json)?;
     let config: ClientConfig = serde_json::from_str(&json)?;
+    // `servers[index]` is the server this client talks to: an index that names none is a configuration error
+    if config.index >= config.servers.len() {
+        return Err(std::io::Error::new(std::io::ErrorKind::InvalidData, format!("index {} names none of the {} configured servers", config.index, config.servers.len())));
+    }
     Ok(config)
 }
 
